@@ -47,6 +47,7 @@ def run(ctx):
                        "element-wise (u gains w, w loses v and gains u) when v is merged into u.")
     ctx.undecided = "correctness of topo_sort, of the window re-sort, and that a merge is refused only when necessary"
     c = mir.load_crate("dfir_lang")
+    uf_rule(ctx, c)
     tm = c.bodies.get(MOD + "{impl#0}::try_merge")
     new = c.bodies.get(MOD + "{impl#0}::new")
     R_G = ctx.rule("C17.guard", "UnionFind::union in try_merge is dominated by the not-enemy edge of the enemies lookup and by the exhaustion (pop -> None) of the cycle search", floor=1)
@@ -189,3 +190,59 @@ def entry_key(b, org, p, depth=0):
             if x["k"] == "use":
                 return entry_key(b, org, op_place(x["ops"][0]), depth + 1)
     return None
+
+
+def _from_find(b, local, depth=0):
+    """does the local's value come (by copies) from the result of a find() call?"""
+    if depth > 6:
+        return False
+    for bb, idx, rv in b.defs_of(local):
+        if idx == "term":
+            f = rv.get("f") if rv["k"] == "call" else None
+            if f and f["name"] in ("find", "find_rep", "find_root"):
+                return True
+            continue
+        if rv["k"] == "use":
+            p = op_place(rv["ops"][0])
+            if isinstance(p, int) and _from_find(b, p, depth + 1):
+                return True
+    return False
+
+
+def uf_rule(ctx, c):
+    """UnionFind::union links representatives: both the slot written in `links` and the value stored there are results of find()"""
+    R = ctx.rule("C17.uf", "UnionFind::union links the representative of one set to the representative of the other (slot and value both come from find())", floor=1)
+    bodies = [b for d, b in c.bodies.items() if d.startswith("dfir_lang::union_find::") and d.endswith("::union") and b.kind == "AssocFn"]
+    if not bodies:
+        ctx.anchor_missing(R, "UnionFind::union")
+    for b in bodies:
+        key = "dfir_lang|UnionFind::union"
+        writes = []
+        for bb, t in b.calls():
+            f = t.get("f")
+            if f and f["name"] in ("index_mut", "insert") and len(t["a"]) >= 2:
+                p0 = op_place(t["a"][0])
+                if p0 is None or not derives_field(b, pl_local(p0), {"links"}):
+                    continue
+                k = op_place(t["a"][1])
+                val_ok = None
+                if f["name"] == "insert" and len(t["a"]) >= 3:
+                    v = op_place(t["a"][2])
+                    val_ok = isinstance(v, int) and _from_find(b, v)
+                else:
+                    # value stored through the returned reference
+                    d = t.get("dst")
+                    for bb2, i2, lhs, rv in b.assignments():
+                        if not isinstance(lhs, int) and pl_local(lhs) == d and rv["k"] == "use":
+                            v = op_place(rv["ops"][0])
+                            val_ok = isinstance(v, int) and _from_find(b, v)
+                writes.append((bb, isinstance(k, int) and _from_find(b, k), val_ok))
+        ctx.inst(R, key, sites=len(writes), sample={"writes": writes})
+        if not writes:
+            ctx.anchor_missing(R, "write to `links` in UnionFind::union")
+        for bb, k_ok, v_ok in writes:
+            if not k_ok:
+                ctx.violation(R, key + "|links-non-representative-slot", "union() re-links an element that is not the result of find(): when that element is a non-representative member of a larger set "
+                              "only it is moved and the rest of its set is left behind (connectivity answers become wrong)", b.loc(bb))
+            if v_ok is False:
+                ctx.violation(R, key + "|links-to-non-representative", "union() stores a link target that is not the result of find()", b.loc(bb))
